@@ -432,11 +432,11 @@ let () =
         let verdict = List.nth rest (List.length rest - 1) in
         prop name (verdict = "pass") line ""
     | cls :: rest ->
-        let starts = (match rest with "begin" :: _ -> true | _ -> cls = "cw" || cls = "ar" || cls = "bg" || cls = "st" || cls = "mo" || cls = "iv" || cls = "sl") in
+        let starts = (match rest with "begin" :: _ -> true | _ -> cls = "cw" || cls = "ar" || cls = "bg" || cls = "st" || cls = "mo" || cls = "iv" || cls = "sl" || cls = "fs") in
         if starts then cur_case := [];
         cur_case := input_part line :: !cur_case;
         bump (cls ^ ":" ^ (match rest with op :: _ when cls <> "cw" && cls <> "sl" -> op | _ -> ""));
-        if res <> [] && cls <> "bg" && cls <> "st" then Hashtbl.replace distinct (cls ^ (String.concat "\t" (List.tl args)) ^ "=>" ^ String.concat "\t" res) ();
+        if res <> [] && cls <> "bg" && cls <> "st" && cls <> "fs" then Hashtbl.replace distinct (cls ^ (String.concat "\t" (List.tl args)) ^ "=>" ^ String.concat "\t" res) ();
         (try
           (match cls with
            | "ar" -> do_ar line rest res
